@@ -464,6 +464,23 @@ def run_case(case: Dict[str, Any], ctx) -> None:
                 which = _blame(cls, opts)
                 ctx.violation(f"{key}:module-gradient-differs-from-functional-form:{which}", f"gradient #{i} differs (option not honoured in the backward pass)", opts=opts)
                 break
+    # ---- the module as it is used for evaluation: under torch.no_grad() / inference_mode it still IS its functional form ----
+    if seed % 3 == 0:
+        mode = torch.no_grad if seed % 2 else torch.inference_mode
+        try:
+            with mode():
+                torch.manual_seed(seed)
+                y1n = m(*[a.detach().clone() for a in args])
+                torch.manual_seed(seed)
+                y2n = functional_call(cls, m, [a.detach().clone() for a in args], U, torch, opts)
+            ctx.count("mode:" + mode.__name__ + "-compared")
+            if tuple(y1n.shape) != tuple(y2n.shape) or not bits_equal(y1n, y2n):
+                ctx.violation(f"{key}:module-differs-from-functional-form-under-{mode.__name__}:{_blame(cls, opts)}",
+                              "module output is not the functional-form output when autograd is off", opts=opts, training=case["training"])
+        except AssertionError:
+            pass
+        except Exception as e:
+            ctx.violation(f"{key}:forward-raises-under-{mode.__name__}:{exc_key(e)}", repr(e), opts=opts)
     # ---- no hidden state: toggling train/eval and calling again reproduces the first call bit for bit -------------
     try:
         m.train(not case["training"])
